@@ -4,10 +4,12 @@
 package gen
 
 import (
+	"encoding/hex"
 	"fmt"
 	"math"
 	"math/rand/v2"
 	"strings"
+	"unicode/utf8"
 
 	"go.opentelemetry.io/collector/pdata/pcommon"
 	"go.opentelemetry.io/collector/pdata/plog"
@@ -49,15 +51,15 @@ type G struct {
 	// MaxDepth bounds nesting of list/map values.
 	MaxDepth int
 
-	strs  []string
-	keys  []string
+	strs   []string
+	keys   []string
 	bytesP [][]byte
-	ints  []int64
-	dbls  []float64
-	times []uint64
-	tids  [][16]byte
-	sids  [][8]byte
-	urls  []string
+	ints   []int64
+	dbls   []float64
+	times  []uint64
+	tids   [][16]byte
+	sids   [][8]byte
+	urls   []string
 	// container templates reused across batches (duplicates and near-identical variants)
 	resT []pcommon.Resource
 	resU []string
@@ -371,7 +373,12 @@ func (g *G) confuse(m pcommon.Map) {
 					v.SetStr(fmt.Sprintf("%v", d))
 				}
 			case pcommon.ValueTypeBytes:
-				v.SetStr(string(v.Bytes().AsRaw()))
+				raw := v.Bytes().AsRaw()
+				if utf8.Valid(raw) {
+					v.SetStr(string(raw))
+				} else {
+					v.SetStr(hex.EncodeToString(raw)) // D-valid: strings are valid UTF-8
+				}
 			case pcommon.ValueTypeEmpty:
 				v.SetStr("")
 			default:
